@@ -229,9 +229,9 @@ def check_case(case, tier):
             for method, lay in lays.items():
                 ent = lay["entries"]
                 if set(ent) != set(base):
-                    extra = sorted(set(ent) - set(base))[:3]
+                    more = sorted(set(ent) - set(base))[:3]
                     miss = sorted(set(base) - set(ent))[:3]
-                    failures.append((f"layout/coordinate-set/{method}", f"{method} vs dense: extra {extra} missing {miss}"))
+                    failures.append((f"layout/coordinate-set/{method}", f"{method} vs dense: extra {more} missing {miss}"))
                     continue
                 for rc_, v in ent.items():
                     if v != base[rc_]:
